@@ -102,7 +102,9 @@ class Rig:
 
     # every realisation first installs STALE parameters, then the intended ones, through the
     # public setters of the driver: the verdict must follow what was set last
-    def evaluate(self, ens, *, T, u, dE, dK=0.0, n=1, cell_old=None, cell_new=None, P=0.0, S=None, mu=0.0, V=None, N=0, tmpl="Cu"):
+    def evaluate(self, ens, *, T, u, dE, dK=0.0, n=1, cell_old=None, cell_new=None, P=0.0, S=None, mu=0.0, V=None, N=0, tmpl="Cu", install=True):
+        """install=False: a FURTHER trial on the simulation as configured by the previous call (temperature, pressure,
+        stress, chemical potential, particle number and volume are NOT set again)"""
         self.rng.scripts.clear()
         self.rng.script("random", float(u))
         E0 = 1.2345
@@ -116,8 +118,9 @@ class Rig:
             mc = self.sims[("gc", tmpl)]
         ctx = mc.context
         atoms = mc.atoms
-        mc.temperature = 31.4159  # stale
-        mc.temperature = T
+        if install:
+            mc.temperature = 31.4159  # stale
+            mc.temperature = T
         ctx.last_potential_energy = E0
         atoms.calc.value = E0 + dE
         atoms.calc.reset()
@@ -128,21 +131,23 @@ class Rig:
             p[0, 0] = math.sqrt(2 * atoms.get_masses()[0] * (K0 + dK))
             atoms.set_momenta(p)
         if ens in ("isobaric", "isotension"):
-            mc.pressure = -123.0  # stale
-            mc.pressure = P
+            if install:
+                mc.pressure = -123.0  # stale
+                mc.pressure = P
             atoms.set_cell(cell_old, scale_atoms=False)
             ctx.last_cell = atoms.get_cell()
             atoms.set_cell(cell_new, scale_atoms=False)
-            if ens == "isotension":
+            if ens == "isotension" and install:
                 mc.external_stress = np.full((3, 3), 7.7)  # stale
                 mc.external_stress = np.array(S, float)
-        if ens in ("insertion", "deletion"):
+        if ens in ("insertion", "deletion") and install:
             mc.chemical_potential = -55.5  # stale
             mc.chemical_potential = mu
             mc.number_of_exchange_particles = 99  # stale
             mc.number_of_exchange_particles = N
             mc.accessible_volume = 1e-3  # stale
             mc.accessible_volume = V
+        if ens in ("insertion", "deletion"):
             ctx.particle_delta = 1 if ens == "insertion" else -1
         crit = self.criteria(mc)
         self.rng.log.clear()
@@ -210,6 +215,89 @@ def mirror_loga(ens, *, T, dE, dK=0.0, n=1, V0=None, V1=None, P=0.0, work=0.0, m
     if ens == "insertion":
         return math.log(V / (lam3 * (N + 1))) + (mu - dE) / kT
     return math.log(lam3 * N / V) + (-mu - dE) / kT
+
+
+class _Between:
+    """user criteria around the shipped one: scripts the uniform so that the verdict tells which reference cell was used"""
+
+    def __init__(self, inner, box):
+        self.inner, self.box = inner, box
+
+    def evaluate(self, context):
+        b = self.box
+        atoms = context.atoms
+        V1 = abs(np.linalg.det(atoms.cell.array))
+        kT = kB * b["T"]
+        la_true = -(b["P"] * (V1 - b["V_start"])) / kT + (b["n"] + 1) * math.log(V1 / b["V_start"])
+        la_stale = -(b["P"] * (V1 - b["V_built"])) / kT + (b["n"] + 1) * math.log(V1 / b["V_built"])
+        b.update(la_true=la_true, la_stale=la_stale, V1=V1)
+        lo, hi = sorted((min(0.0, la_true), min(0.0, la_stale)))
+        if hi - lo < 1e-6:
+            b["decidable"] = False
+            return self.inner.evaluate(context)
+        b["decidable"] = True
+        lu = 0.5 * (lo + hi)
+        context.rng.scripts.clear()
+        context.rng.script("random", math.exp(lu))
+        b["want"] = lu < min(0.0, la_true)
+        b["got"] = bool(self.inner.evaluate(context))
+        return b["got"]
+
+    def to_dict(self):
+        return self.inner.to_dict()
+
+
+def first_trial_reference(rep, rs, ncases):
+    """An Isobaric / Isotension simulation is built, the user then changes the cell of the same atoms (a pre-strain), and
+    runs: the first cell trial must be judged against the volume at the start of the run."""
+    from quansino.mc.isobaric import Isobaric
+    from quansino.mc.isotension import Isotension
+    from quansino.moves.cell import CellMove
+    from quansino.operations.cell import IsotropicDeformation
+
+    done = 0
+    for k in range(ncases):
+        n = int(rs.randint(1, 4))
+        T = float(rs.choice([300.0, 2000.0]))
+        P = float(rs.choice([0.05, 0.3]))
+        a = Atoms(f"Cu{n}", positions=rs.rand(n, 3) * 5 + 1, cell=np.diag(rs.uniform(7, 9, 3)), pbc=True)
+        a.calc = FixedEnergy()
+        a.calc.value = 0.0
+        cls = Isobaric if k % 2 == 0 else Isotension
+        kw = {"external_stress": P * np.eye(3)} if cls is Isotension else {}
+        decided = False
+        for attempt in range(6):
+            mc = cls(a.copy(), temperature=T, pressure=P, max_cycles=1, seed=int(rs.randint(1, 10**6)), **kw)
+            mc.atoms.calc = FixedEnergy()
+            mc.atoms.calc.value = 0.0
+            V_built = abs(np.linalg.det(mc.atoms.cell.array))
+            box = {"T": T, "P": P, "n": n, "V_built": V_built}
+            mc.add_move(CellMove(IsotropicDeformation(0.05)), name="cell")
+            mc.moves["cell"].criteria = _Between(mc.moves["cell"].criteria, box)
+            g = ScriptedGenerator(int(rs.randint(1, 10**6)))
+            mc._rng = g
+            mc.context.rng = g
+            # the user pre-strains the system between construction and run
+            mc.atoms.set_cell(mc.atoms.cell.array * float(rs.choice([0.9, 1.12])), scale_atoms=True)
+            box["V_start"] = abs(np.linalg.det(mc.atoms.cell.array))
+            try:
+                mc.run(1)
+            except Exception as ex:  # noqa: BLE001
+                rep.violation(f"raise:first-trial:{type(ex).__name__}", f"{cls.__name__}: run after a manual change of the cell raised {ex!r}", {"driver": cls.__name__})
+                decided = True
+                break
+            if box.get("decidable"):
+                decided = True
+                done += 1
+                rep.count(("first-trial", k), nontrivial=True)
+                if box["got"] != box["want"]:
+                    rep.violation(f"verdict:{'isobaric' if cls is Isobaric else 'isotension'}:first-trial-after-cell-change",
+                                  f"{cls.__name__}: the cell was changed by hand between construction (V = {box['V_built']:.2f}) and run (V = {box['V_start']:.2f}); the first trial (V' = {box['V1']:.2f}) got verdict {box['got']}, the rule with the volume at the start of the run says {box['want']} (ln A = {box['la_true']:.4f}; with the construction-time volume {box['la_stale']:.4f})",
+                                  {"driver": cls.__name__, **{kk: (float(v) if isinstance(v, (int, float, np.floating)) else v) for kk, v in box.items()}})
+                break
+        if not decided:
+            rep.count(("first-trial-undecidable", k))
+    return done
 
 
 def run(tier: str) -> int:
@@ -341,6 +429,51 @@ def run(tier: str) -> int:
         want = lu < min(0.0, la)
         if got != want:
             rep.violation(f"verdict:{ens}:offlattice", f"{ens}: criteria returned {got}, textbook rule says {want} (ln A = {la:.6g}, ln u = {lu:.6g})", {k2: (v.tolist() if hasattr(v, 'tolist') else v) for k2, v in kw.items()})
+    # ---- several trials on ONE configured simulation: evaluating a trial must not change what was configured ----------
+    nseq = 150 if tier == "quick" else 3000
+    for k in range(nseq):
+        ens = ["isotension", "isobaric", "insertion", "deletion", "canonical"][k % 5]
+        T = float(10 ** rs.uniform(1.5, 4))
+        P = float(rs.choice([0.02, 0.3, -0.05, 0.5]))
+        S = rs.uniform(-0.05, 0.05, (3, 3))
+        S = S + S.T
+        n = int(rs.randint(0, 4))
+        tmpl = ["Cu", "CO"][rs.randint(2)]
+        N = int(rs.randint(1, 30))
+        V = float(10 ** rs.uniform(1, 4))
+        mu = float(rs.normal())
+        rep.count(("sequence", k))
+        for trial in range(4):
+            dE = float(rs.normal() * kB * T * 2)
+            u = float(rs.rand())
+            kw = {"T": T, "u": u, "dE": dE, "install": trial == 0}
+            mk = {"T": T, "dE": dE}
+            if ens in ("isobaric", "isotension"):
+                base = np.diag(rs.uniform(6, 12, 3)) + np.tril(rs.uniform(-2, 2, (3, 3)), -1)
+                new = (np.eye(3) + rs.uniform(-0.05, 0.05, (3, 3))) @ base
+                kw.update(n=n, cell_old=base, cell_new=new, P=P, S=S)
+                mk.update(n=n, V0=abs(np.linalg.det(base)), V1=abs(np.linalg.det(new)), P=P)
+            if ens in ("insertion", "deletion"):
+                kw.update(mu=mu, N=N, V=V, tmpl=tmpl)
+                mk.update(mu=mu, N=N, V=V, mass=63.546 if tmpl == "Cu" else 12.011 + 15.999)
+            try:
+                got, crit, _ = rig.evaluate(ens, **kw)
+            except Exception as ex:  # noqa: BLE001
+                rep.violation(f"raise:{ens}:{type(ex).__name__}:sequence", f"{ens} criteria raised {ex!r} at trial {trial + 1} of a sequence", {"ens": ens, "trial": trial})
+                break
+            if ens == "isotension":
+                mk["work"] = float(mk["V0"] * np.trace((S - P * np.eye(3)) @ crit.strain_tensor))
+            la = mirror_loga(ens, **mk)
+            lu = math.log(u)
+            if abs(lu - min(0.0, la)) < 1e-9 * max(1.0, abs(la)) + 1e-12:
+                continue
+            if got != (lu < min(0.0, la)):
+                rep.violation(f"verdict:{ens}:later-trial-of-a-sequence", f"{ens}: trial {trial + 1} on one configured simulation (parameters set once, before trial 1): criteria returned {got}, rule says {lu < min(0.0, la)} (ln A = {la:.6g}, ln u = {lu:.6g})",
+                              {"ens": ens, "trial": trial + 1, "T": T, "P": P, "S": S.tolist()})
+                break
+    # ---- the reference volume of the first trial of a run is the volume the atoms have WHEN THE RUN STARTS ----------
+    nrun = first_trial_reference(rep, rs, 12 if tier == "quick" else 120)
+    rep.add(first_trial_runs=nrun, sequences=nseq)
     rep.add(states=r.distinct, transitions=r.generated, traces_validated_against_impl=n_real, exhaustive=True, lattice_points=len(pts), hydrostatic_pairs=nh, offlattice=noff,
             guard_band_discards=guard, isotension_points_skipped_strain_definition=skipped_strain,
             rule="every lattice point of Accept.tla (energies, P dV, stress work, mu in units of kT ln2 incl. 0, +-1, +-709, +-1025, +-1100, +-1e6; V'/V = 2^m; prefactor 2^a; N in 0..3; u = 2^-(j+1/2), j up to 1000; T in {T0, 2T0}) realised on real Canonical/HamiltonianCanonical/Isobaric/Isotension/GrandCanonical objects through their property setters after installing stale values (cubic, triclinic, sheared cells; atomic and molecular species; antisymmetric stress decoration); plus random hydrostatic isotension-vs-isobaric pairs and random off-lattice inputs judged by the log-form mirror with a guard band")
